@@ -53,6 +53,8 @@ def parse_file(tokens):
         if '=' not in t:
             if t in ('fixed', 'integer', 'rational', 'guarded'):
                 out['arithmetic'] = t
+            elif t in model.ALL_RULES:
+                out['rule'] = t
             elif t in ('report', 'dump', 'json'):
                 out[t] = True
             continue
@@ -150,6 +152,10 @@ def valid_value(d, rule, name, p):
 
 
 def file_token(name, v, d):
+    if name == 'arithmetic' and d.p(40):
+        return str(v)            # a bare arithmetic name means arithmetic=name
+    if name == 'dump' and v is True and d.p(50):
+        return 'dump'
     if isinstance(v, bool):
         return '%s=%s' % (name, d.choice(['true', 'yes', 'True', 'YES'] if v else ['false', 'no', 'False', 'NO']))
     return '%s=%s' % (name, v)
@@ -184,6 +190,15 @@ def cases(draw, tier):
                         cmd[name] = str(v) if isinstance(v, int) and not isinstance(v, bool) and d.p(30) else v
                     else:
                         fil.append(file_token(name, v, d))
+        t = d.int(0, 9)
+        if t <= 1:
+            # the rule is named only in the ballot file
+            fil.insert(d.int(0, len(fil)), rule if d.p(50) else 'rule=%s' % rule)
+            case['rule_in_file'] = True
+        elif t == 2:
+            # the file names another rule: the caller's wins
+            other = d.choice([r for r in model.ALL_RULES if r != rule])
+            fil.insert(d.int(0, len(fil)), other if d.p(50) else 'rule=%s' % other)
         case['options'] = cmd
         case['file_options'] = fil or None
         return dict(kind='layers', case=case)
@@ -229,6 +244,7 @@ def check(wrapper):
         return res
     base = rule
     rec = E.options.record()
+    fil_norule = {k: v for k, v in fil.items() if k != 'rule'}
     for name in sorted(set(eff) - {'rule'}):
         got = E.options.getopt(name)
         if got != eff[name]:
@@ -237,7 +253,11 @@ def check(wrapper):
         if rec['options'].get(name) != eff[name]:
             res.fail('record-effective', 'record-effective|%s|%s' % (name, base), '%s: record says %r, model %r' % (name, rec['options'].get(name), eff[name]))
     want_cmd = {k: norm(v) for k, v in cmd.items()}
-    want_cmd['rule'] = rule
+    if not case.get('rule_in_file'):
+        want_cmd['rule'] = rule
+    if E.options.getopt('rule') != rule or E.rule.__class__.__module__.split('.')[-1].replace('_', '-') not in (rule, rule.replace('-batch', ''), 'meek' if rule == 'warren' else rule):
+        res.fail('effective', 'effective|rule|' + base, 'rule %r requested (in file: %r), election uses %r / %s' %
+                 (rule, bool(case.get('rule_in_file')), E.options.getopt('rule'), E.rule.__class__.__module__))
     if rec['cmd'] != want_cmd:
         res.fail('record-layer', 'record-layer|cmd|' + base, 'record cmd %r, supplied %r' % (rec['cmd'], want_cmd))
     if rec['file_options'] != fil:
